@@ -5,6 +5,7 @@ import importlib
 import json
 import multiprocessing
 import os
+import re
 import sys
 import time
 import traceback
@@ -246,6 +247,9 @@ def match_known(prop, sig, known):
             return f
         pref = f.get("signature_prefix")
         if pref and sig.startswith(pref):
+            return f
+        rx = f.get("signature_regex")
+        if rx and re.fullmatch(rx, sig):
             return f
     return None
 
